@@ -193,6 +193,10 @@ def run(ctx):
     from .. import e2e
     seeds = [rng.randint(1, 10 ** 9) for _ in range(16 if quick else 300)]
     e2e.parallel(lambda sd: e2e.c18_dead_case(ctx, sd), seeds)
+    # outputs that are symbolic links (dangling, to a source, to another output): the link is what gets cleaned
+    from .c07 import safe
+    seeds = [rng.randint(1, 10 ** 9) for _ in range(40 if quick else 800)]
+    e2e.parallel(lambda sd: safe(ctx, e2e.c18_links_case, ctx, sd), seeds)
     ctx.rule = ("graphs of 2..8 statements in never-built/built/half-built/partly-deleted states + look-alike files x clean scope (all, -g, "
                 "1..3 targets, 1..3 rules incl. 'phony', cleandead after dropping/renaming a statement, 25%% dry run); distinct_nontrivial "
                 "= distinct scenarios in which at least one existing file was in scope")
